@@ -46,6 +46,29 @@ def setup():
     return rc
 
 
+# modules each property is anchored in: their public functions / classes must be what the packages export under those names
+T = "aotools.turbulence."
+OWNERS = {
+    "C01": [T + "slopecovariance"], "C02": [T + "slopecovariance"], "C03": [T + "slopecovariance"],
+    "C04": [T + "infinitephasescreen", T + "turb"], "C05": [T + "infinitephasescreen"], "C06": [T + "phasescreen", T + "infinitephasescreen"],
+    "C07": [T + "phasescreen"], "C10": ["aotools.opticalpropagation", "aotools.fouriertransform"], "C11": ["aotools.opticalpropagation", "aotools.fouriertransform"],
+    "C12": ["aotools.functions.zernike", "aotools.functions.pupil"], "C14": ["aotools.functions.pupil", "aotools.wfs.wfslib"],
+    "C15": ["aotools.image_processing.centroiders"], "C16": ["aotools.interpolation", "aotools.image_processing.psf", "aotools.functions.pupil"],
+    "C17": [T + "atmos_conversions", "aotools.astronomy._astronomy"], "C18": [T + "profile_compression"],
+    "C19": [T + "slopecovariance", T + "temporal_ps"],
+    "C20": [T + "slopecovariance", T + "infinitephasescreen", T + "phasescreen", T + "turb", T + "atmos_conversions", T + "profile_compression", T + "temporal_ps",
+            "aotools.fouriertransform", "aotools.interpolation", "aotools.functions.zernike", "aotools.functions.pupil", "aotools.functions._functions",
+            "aotools.image_processing.centroiders", "aotools.image_processing.psf", "aotools.image_processing.contrast", "aotools.astronomy._astronomy",
+            "aotools.wfs.wfslib"],
+}
+
+
+def exports_check(run, prop):
+    from harness import namespace
+    for key, detail in namespace.check(run, set(OWNERS.get(prop, []))):
+        run.violation(key, detail, dict(kind="namespace-api", owners=OWNERS.get(prop, [])))
+
+
 def main():
     ap = argparse.ArgumentParser()
     ap.add_argument("prop", nargs="?")
@@ -67,7 +90,10 @@ def main():
         run = core.Run(rec["property"], rec.get("tier", "quick"), int(rec.get("seed", seed)))
         run.known = []  # a replay shows the raw verdict for this one case
         try:
-            mod.replay(run, rec["case"])
+            if rec["case"].get("kind") == "namespace-api":
+                exports_check(run, rec["property"])
+            else:
+                mod.replay(run, rec["case"])
         except core.MachineryError as e:
             print("MACHINERY:", e)
             return 2
@@ -87,6 +113,8 @@ def main():
     run = core.Run(prop, a.tier, seed)
     try:
         mod.run(run)
+        if prop in OWNERS:
+            exports_check(run, prop)
     except core.MachineryError as e:
         print("MACHINERY FAILURE in %s: %s" % (prop, e))
         return 2
